@@ -2,6 +2,7 @@ package rules
 
 import (
 	"go/token"
+	"go/types"
 	"strings"
 
 	"golang.org/x/tools/go/ssa"
@@ -236,6 +237,7 @@ func runC20(c *Ctx) {
 	}
 
 	c20RequiresOwnRepresentation(c, feds)
+	c20BatchPositional(c, feds)
 
 	c.R.Rule("joined", "the goroutines of __resolve_entities and resolveEntityGroup are accounted by their WaitGroups (same analysis as C05/wg-accounting)", 2*len(feds))
 	for _, g := range feds {
@@ -356,5 +358,95 @@ func c20RequiresOwnRepresentation(c *Ctx, feds []*GenPkg) {
 	}
 	if n == 0 {
 		c.R.Note("populateFromRepresentations", "-", "no materialised configuration uses computed_requires; nothing to judge")
+	}
+}
+
+// c20BatchPositional: the batch path zips the user's findMany result with the representations by position
+// (list[reps[i].index] = entities[i]), so the batch handed to the user resolver has to hold exactly one element per
+// representation of the group, in order: it is make([]T, len(reps)) and is only ever written at typedReps[<range index over
+// reps>].  An append-built (compacted, filtered or re-ordered) batch shifts every later entity into another representation's slot.
+func c20BatchPositional(c *Ctx, feds []*GenPkg) {
+	c.R.Rule("batch-positional", "in resolveManyEntities the slice handed to a multi entity resolver is make(len(reps)) and is written only at the range index over reps (never built with append)", 0)
+	n := 0
+	for _, g := range feds {
+		fn := c.genFunc(g, "resolveManyEntities")
+		if fn == nil {
+			continue
+		}
+		var reps ssa.Value
+		for _, p := range fn.Params {
+			if strings.HasSuffix(p.Type().String(), "[]"+g.Path+".EntityWithIndex") {
+				reps = p
+			}
+		}
+		for _, f := range an.WithClosures(fn) {
+			for _, b := range f.Blocks {
+				for _, in := range b.Instrs {
+					call, ok := in.(ssa.CallInstruction)
+					if !ok || userCallKind(g, call) != "resolver" || !strings.HasSuffix(call.Common().Value.Type().String(), "EntityResolver") {
+						continue
+					}
+					args := call.Common().Args
+					if len(args) < 2 {
+						continue
+					}
+					batch := args[len(args)-1]
+					if _, isSlice := batch.Type().Underlying().(*types.Slice); !isSlice {
+						continue
+					}
+					n++
+					key := "gen:" + g.Name + "/resolveManyEntities/batch:" + call.Common().Method.Name()
+					bad := ""
+					for _, d := range an.Defs(batch) {
+						switch x := d.(type) {
+						case *ssa.MakeSlice:
+							okLen := false
+							if lc, isCall := x.Len.(*ssa.Call); isCall {
+								if bi, isB := lc.Call.Value.(*ssa.Builtin); isB && bi.Name() == "len" && reps != nil && an.SameVar(lc.Call.Args[0], reps) {
+									okLen = true
+								}
+							}
+							if !okLen {
+								bad = "the batch is not allocated with one slot per representation (len(reps))"
+							}
+							for _, r := range an.Referrers(x) {
+								ia, isIA := r.(*ssa.IndexAddr)
+								if !isIA {
+									continue
+								}
+								isRangeIdx := false
+								for _, d2 := range an.Defs(ia.Index) {
+									if bo, ok := d2.(*ssa.BinOp); ok {
+										if p, ok := bo.X.(*ssa.Phi); ok && p.Comment == "rangeindex" {
+											isRangeIdx = true
+										}
+									}
+									if p, ok := d2.(*ssa.Phi); ok && p.Comment == "rangeindex" {
+										isRangeIdx = true
+									}
+								}
+								if !isRangeIdx {
+									bad = "the batch is written at an index that is not the position of the representation in the group"
+								}
+							}
+						case *ssa.Call:
+							if bi, isB := x.Call.Value.(*ssa.Builtin); isB && bi.Name() == "append" {
+								bad = "the batch is built with append: a skipped or re-ordered representation shifts every later entity of the group into another representation's slot (the result is zipped back by position)"
+							} else {
+								bad = "the batch comes from a call and cannot be related to the representations by position"
+							}
+						default:
+							if !an.IsNilConst(d) {
+								bad = "the batch is not a slice made with one slot per representation"
+							}
+						}
+					}
+					c.R.Check(bad == "", key, c.ipos(in), "make(len(reps)), written at the range index", bad)
+				}
+			}
+		}
+	}
+	if n == 0 {
+		c.R.Note("resolveManyEntities/batch", "-", "no materialised federation configuration has a multi entity resolver; nothing to judge")
 	}
 }
